@@ -517,7 +517,7 @@ def replay_native(h, repo, hdir, tdir, logdir, pid, res):
         try:
             subprocess.call(
                 cmd, cwd=repo, env=base_env(hdir), stdout=lf, stderr=subprocess.STDOUT,
-                preexec_fn=_limits(max(3 * h.get("mem_gb", 4), 24)), timeout=THOROUGH_CAP_S,
+                preexec_fn=_limits(max(3 * h.get("mem_gb", 4), 48)), timeout=THOROUGH_CAP_S,
             )
         except subprocess.TimeoutExpired:
             record["replay"] = "playback generation timed out"
@@ -576,9 +576,11 @@ def replay_native(h, repo, hdir, tdir, logdir, pid, res):
                 # stand-ins takes the real callee instead. It counts as a reproduction only if it fails
                 # with the very check the solver reported, not with some other assertion of the harness
                 # that presupposes the stand-in (recorded call counters etc.)
-                descs = [f["description"] for f in res["failed"]]
+                def norm(x):
+                    return re.sub(r"[\s:.]+$", "", x.replace("assertion failed: ", "")).strip()
+                descs = [norm(f["description"]) for f in res["failed"]]
                 msgs = " ".join(msg for _, msg in panics)
-                if not any(d and (d in msgs or d.replace("assertion failed: ", "") in msgs) for d in descs):
+                if not any(d and d in msgs for d in descs):
                     failed = False
             outs.append({"profile": "release" if profile else "dev", "test": t, "rc": rc, "test_failed": failed,
                          "panic": re.findall(r"panicked at [^\n]*\n[^\n]*", out)[:3]})
